@@ -87,7 +87,7 @@ class SocketServer_Multiplex(object):
                     try:
                         self.daemon._clientDisconnect(s)
                     except Exception as x:
-                        log.warning("Error in clientDisconnect: " + str(x))
+                        log.warning("Error in clientDisconnect: %s", x)
                     self.selector.unregister(s)
                     s.close()
         self.daemon._housekeeping()
@@ -180,8 +180,7 @@ class SocketServer_Multiplex(object):
             # other error occurred, close the connection, but also log a warning
             ex_t, ex_v, ex_tb = sys.exc_info()
             tb = errors.format_traceback(ex_t, ex_v, ex_tb)
-            msg = "error during handleRequest: %s; %s" % (ex_v, "".join(tb))
-            log.warning(msg)
+            log.warning("error during handleRequest: %s; %s", ex_v, "".join(tb))
             return False
 
     def loop(self, loopCondition=lambda: True):
